@@ -82,7 +82,7 @@ def run(chk):
                 for obj, info, line in tr.leaks:
                     leaked.setdefault(info["what"], []).append(line)
                 for obj, info in tr.allocs.items():
-                    key = "%s: %s is released or handed over on every path" % (f.name, info["what"])
+                    key = "%s: %s (line %s) is released or handed over on every path" % (f.name, info["what"], info["line"])
                     if info["what"] in leaked:
                         chk.refuted("R3", key, where="%s:%s" % (f.file, info["line"]),
                                     detail="still held at exit %s" % sorted(set(map(str, leaked[info["what"]])))[:3], variant=vn)
